@@ -94,7 +94,7 @@ func tryReplay(ld *Loaded, prop, name string, ob *Obligation, work string) (stri
 		os.WriteFile(path, data, 0o644)
 	}
 	write()
-	out, confirmed := runReplay(*flagRepo, path, rule.Pkg)
+	out, confirmed := runReplay(*flagRepo, path, rule.Pkg, rule.Scenario["race"] == "1")
 	sc.Output = out
 	sc.Confirmed = confirmed
 	write()
@@ -102,7 +102,7 @@ func tryReplay(ld *Loaded, prop, name string, ob *Obligation, work string) (stri
 }
 
 // runReplay executes the scenario file against the repository at repo.
-func runReplay(repo, scenarioPath, pkg string) (string, bool) {
+func runReplay(repo, scenarioPath, pkg string, race bool) (string, bool) {
 	tmp, err := os.MkdirTemp("", "govc-replay")
 	if err != nil {
 		return err.Error(), false
@@ -125,7 +125,12 @@ func runReplay(repo, scenarioPath, pkg string) (string, bool) {
 	ov, _ := json.Marshal(map[string]interface{}{"Replace": repl})
 	ovPath := filepath.Join(tmp, "overlay.json")
 	os.WriteFile(ovPath, ov, 0o644)
-	cmd := exec.Command("go", "test", "-overlay", ovPath, "-vet=off", "-count=1", "-timeout", "60s", "-run", "^TestVerifReplay$", "-v", "./"+pkg)
+	args := []string{"test", "-overlay", ovPath, "-vet=off", "-count=1", "-timeout", "90s", "-run", "^TestVerifReplay$", "-v"}
+	if race {
+		args = append(args, "-race")
+	}
+	args = append(args, "./"+pkg)
+	cmd := exec.Command("go", args...)
 	cmd.Dir = repo
 	cmd.Env = append(os.Environ(), "VERIF_SCENARIO="+scenarioPath, "GOFLAGS=-mod=mod", "GOPROXY=off", "GOSUMDB=off", "GOTOOLCHAIN=local")
 	done := make(chan struct{})
@@ -136,7 +141,7 @@ func runReplay(repo, scenarioPath, pkg string) (string, bool) {
 	}()
 	select {
 	case <-done:
-	case <-time.After(120 * time.Second):
+	case <-time.After(240 * time.Second):
 		if cmd.Process != nil {
 			cmd.Process.Kill()
 		}
@@ -146,7 +151,7 @@ func runReplay(repo, scenarioPath, pkg string) (string, bool) {
 	if len(out) > 20000 {
 		out = out[:20000]
 	}
-	return out, strings.Contains(out, "VERIF-CONFIRMED")
+	return out, strings.Contains(out, "VERIF-CONFIRMED") || (race && strings.Contains(out, "DATA RACE"))
 }
 
 // replayMain implements `govc -replay <file>`: re-run a stored scenario.
@@ -166,7 +171,7 @@ func replayMain(path string) int {
 		fmt.Println("bad replay file:", err)
 		return 2
 	}
-	out, confirmed := runReplay(*flagRepo, path, sc.Pkg)
+	out, confirmed := runReplay(*flagRepo, path, sc.Pkg, sc.Model["race"] == "1")
 	fmt.Print(out)
 	if confirmed {
 		fmt.Printf("VIOLATION property=%s replay=%s\n", sc.Property, path)
